@@ -23,7 +23,7 @@ ASSUMPTIONS = [
     "anchors: SCD(sv1=(EK)25) = -0.41 and SCD(sv30=E25K25) = -27.84 as published by Sawle & Ghosh (2 decimals)",
 ]
 REQUIRED = {"all": ["fewer_than_two_charges", "charged_first_residue", "charged_last_residue", "long_repetitive",
-                    "after_other_queries", "anchors"]}
+                    "after_other_queries", "anchors", "longer_than_1000"]}
 LP = {"quick": 10, "thorough": 12}
 NRANDOM = {"quick": 500, "thorough": 5000}
 HI = {"quick": 300, "thorough": 400}
@@ -37,6 +37,7 @@ def cases(tier, seed):
     for s in ["E" * 150, "EK" * 100, "KKG" * 100, "E" * 140 + "K" * 140, "RSED" * 120, "K" * 300, "KGGGGGGGGE",
               "G" * 50 + "K", "K" + "G" * 50, "MGGGK", "KGGGM", "S", "K", "KE", "EK" * 300]:
         yield {"k": "seq", "s": s, "pre": 0}
+    yield {"k": "longs", "lens": [1400, 1050, 1050] if tier == "quick" else [2000, 1400, 1050, 1050, 1200]}
     for L in range(1, LP[tier] + 1):
         for pat in gen.all_patterns(L):
             yield {"k": "pat", "p": M.pat_str(pat)}
@@ -62,6 +63,22 @@ def disturb(obj, seq, rng):
 
 
 def judge(case, rep, S):
+    if case["k"] == "longs":
+        # several >= 1000-residue sequences in ONE process, longer first and one repeated: work buffers or
+        # caches shared between objects show up as a value that depends on what was analysed before
+        rng = gen.sub_rng(0, ID, "longs")
+        seqs = {}
+        for n in case["lens"]:
+            if n not in seqs:
+                seqs[n] = gen.rand_seq(rng, "polyampholyte", lo=n, hi=n)[:n]
+            s = seqs[n]
+            got = S["SP"](s).get_SCD()
+            want = M.scd_ref(M.pattern(s))
+            rep.cnt("longer_than_1000")
+            if not M.close(float(got), want):
+                rep.viol("scd_value", "get_SCD of a %d-residue sequence = %r, the Sawle-Ghosh sum gives %r (sequences of lengths %r analysed in this order in one process)" % (
+                    n, got, want, case["lens"]), sig={"N": n})
+        return
     if case["k"] == "pat":
         pat = M.pat_from_str(case["p"])
         seq = gen.spell(gen.sub_rng(0, ID, case["p"]), pat)
